@@ -223,7 +223,7 @@ fn('emmet.css_matcher:match', props=P,
 fn('emmet.css_matcher:push', inline=True, props=P)
 
 OUT_CAP = {'pool': 'list[list[int]]', 'stack': 'list[list[int]]', 'result': 'list[tuple[int,int]]',
-           'prop': 'list[list[int]|None]', 'pos': 'int', 'source': 'str'}
+           'prop': 'list[list[int]|None]', 'pos': 'int', 'source': 'str', **GHOSTS}
 OUT_INV = ['len(prop) == 1', 'pool is not stack',
            'owned(pool) and owned(stack) and owned(result) and owned(prop)',
            'forall(0, len(stack), lambda i: owned(stack[i]))', 'forall(0, len(pool), lambda i: owned(pool[i]))',
@@ -235,7 +235,7 @@ OUT_INV = ['len(prop) == 1', 'pool is not stack',
 
 fn('emmet.css_matcher:balanced_outward.<locals>.scan_callback', props=P,
    params=CB_PARAMS, returns='bool|None', captures=OUT_CAP,
-   requires=CB_REQ, closure_invariant=OUT_INV, modifies=['owned'])
+   requires=CB_REQ, closure_invariant=OUT_INV, modifies=['owned'], ghost_update=CB_GHOST)
 
 fn('emmet.css_matcher:balanced_outward', props=P,
    params={'source': 'str', 'pos': 'int'}, returns='list[tuple[int,int]]',
